@@ -16,6 +16,8 @@ const VARIANTS: [(usize, u8); 8] = [(0, 0), (1, 0), (2, 0), (3, 0), (4, 0), (4, 
 const FREQS: [u32; 3] = [868_100_000, 923_200_000, 433_175_000];
 const POWERS: [i32; 3] = [14, 20, -3];
 const SYMBS: [u16; 3] = [5, 300, 1100];
+/// band edges and the remaining bands: judged after every prefix of depth 0..=1
+const EDGE_FREQS: [u32; 9] = [137_000_000, 169_400_000, 399_999_999, 400_000_000, 470_300_000, 525_000_000, 779_500_000, 902_300_000, 1_020_000_000];
 const SUFFIX: &str = "/after-history";
 
 fn variant_of(h: &Hist) -> usize {
@@ -147,7 +149,25 @@ pub fn replay(case: &Value) -> Result<(), Failure> {
 }
 
 fn modu(freq: u32) -> Mod {
-    Mod { sf: 4, bw: 7, cr: 0, freq }
+    Mod { sf: 4, bw: 7, cr: (freq / 100_000 % 4) as usize, freq }
+}
+
+/// requests at the band edges (one power, one symbol count)
+fn edge_requests(level: usize) -> Vec<Op> {
+    let mut v = vec![];
+    for &f in EDGE_FREQS.iter() {
+        let m = modu(f);
+        match level {
+            KIND => v.push(Op::KChannel { freq: f }),
+            LORA => {
+                v.push(Op::Tx { m, power: 14, len: 13 });
+                v.push(Op::Rx { m, p: Pkt::new(false, 255).with(f % 200_000 == 0, f % 300_000 == 0, 12), mode: Mode::Single(5), end: RxEnd::Timeout, buf: 256 });
+                v.push(Op::Listen { freq: f, bw: 7 });
+            }
+            _ => v.push(Op::LwTx { m, power: 14, len: 13 }),
+        }
+    }
+    v
 }
 
 fn requests(level: usize) -> Vec<Op> {
@@ -166,7 +186,7 @@ fn requests(level: usize) -> Vec<Op> {
                     v.push(Op::Tx { m, power: w, len: 13 });
                 }
                 for &n in SYMBS.iter() {
-                    v.push(Op::Rx { m, p: Pkt { implicit: false, len: 255 }, mode: Mode::Single(n), end: RxEnd::Timeout, buf: 256 });
+                    v.push(Op::Rx { m, p: Pkt::new(false, 255), mode: Mode::Single(n), end: RxEnd::Timeout, buf: 256 });
                 }
                 v.push(Op::Cad { m });
                 v.push(Op::Listen { freq: f, bw: 7 });
@@ -230,7 +250,7 @@ fn account(h: &Hist, out: &Option<Outcome>, v: HV, st: &mut Stats, enumerated: b
     }
 }
 
-pub const RULE: &str = " STATEFUL STAGE (props/hist.rs; this part uses VERIF_SEED for its random histories): the judged request is the last step of a history executed on ONE driver instance over ONE chip double that forgets like the silicon (SX126x: a sleep without retention and NRESET lose RF frequency, PA configuration, TX parameters, symbol timeout, modulation and packet parameters; SX127x: registers survive sleep, NRESET restores the documented reset values, which are then what the chip holds) and records the configuration in effect when SetTx / SetRx / SetCad (RegOpMode TX / RX / CAD) is commanded; that state is decoded with the same datasheet oracles as above for the request of the last step: synthesiser word vs requested frequency, PA settings vs requested power at SetTx, symbol timeout vs requested count at SetRx. 8 PA paths (SX1261, SX1262, STM32WL HP/LP, SX1276 RFO/PA_BOOST, SX1272 RFO/PA_BOOST); frequencies 868.1 / 923.2 / 433.175 MHz, powers 14 / 20 / -3 dBm, symbol counts 5 / 300 / 1100; levels RadioKind (set_channel, set_tx_power_and_ramp_time, do_rx judged after set_channel / set_modulation_params / set_packet_params / set_tx_power / set_sleep warm+cold / reset / init_lora / set_standby / do_tx / do_rx / do_cad), LoRa (prepare_for_tx+tx, prepare_for_rx+rx, prepare_for_cad+cad, listen judged after the same kinds of operation with the SAME and with DIFFERENT frequency / power / parameters, receptions completed, timed out or never started, rx_switch_channel, sleep warm+cold, init) and LorawanRadio (tx, setup_rx+rx_single judged after tx / setup_rx+rx / low_power). ENUMERATED: every prefix of depth 0..=2 over that alphabet for every judged request (thorough: depth 3 at the LoRa level for 868.1 MHz). RANDOM: proptest histories of 1..=8 prefix operations (shrinking), also with continuous_wave, enter_standby, duty-cycle / continuous receive modes. Non-trivial = judged after a non-empty prefix (enumerated: distinct by construction; random: by hash when longer than every enumerated history).";
+pub const RULE: &str = " STATEFUL STAGE (props/hist.rs; this part uses VERIF_SEED for its random histories): the judged request is the last step of a history executed on ONE driver instance over ONE chip double that forgets like the silicon (SX126x: a sleep without retention and NRESET lose RF frequency, PA configuration, TX parameters, symbol timeout, modulation and packet parameters; SX127x: registers survive sleep, NRESET restores the documented reset values, which are then what the chip holds) and records the configuration in effect when SetTx / SetRx / SetCad (RegOpMode TX / RX / CAD) is commanded; that state is decoded with the same datasheet oracles as above for the request of the last step: synthesiser word vs requested frequency, PA settings vs requested power at SetTx, symbol timeout vs requested count at SetRx. 8 PA paths (SX1261, SX1262, STM32WL HP/LP, SX1276 RFO/PA_BOOST, SX1272 RFO/PA_BOOST); frequencies 868.1 / 923.2 / 433.175 MHz, powers 14 / 20 / -3 dBm, symbol counts 5 / 300 / 1100; levels RadioKind (set_channel, set_tx_power_and_ramp_time, do_rx judged after set_channel / set_modulation_params / set_packet_params / set_tx_power / set_sleep warm+cold / reset / init_lora / set_standby / do_tx / do_rx / do_cad), LoRa (prepare_for_tx+tx, prepare_for_rx+rx, prepare_for_cad+cad, listen judged after the same kinds of operation with the SAME and with DIFFERENT frequency / power / parameters, receptions completed, timed out or never started, rx_switch_channel, sleep warm+cold, init) and LorawanRadio (tx, setup_rx+rx_single judged after tx / setup_rx+rx / low_power). ENUMERATED: every prefix of depth 0..=2 over that alphabet for every judged request (thorough: depth 3 at the LoRa level for 868.1 MHz), and depth 0..=1 for requests at the band edges 137 / 169.4 / 399.999999 / 400.0 / 470.3 / 525 / 779.5 / 902.3 / 1020 MHz; coding rate, rx_boost and TCXO vary with the request. RANDOM: proptest histories of 1..=8 prefix operations (shrinking), also with continuous_wave, enter_standby, duty-cycle / continuous receive modes. Non-trivial = judged after a non-empty prefix (enumerated: distinct by construction; random: by hash when longer than every enumerated history).";
 
 pub fn stage(ctx: &mut Ctx) {
     let full = ctx.tier == Tier::Thorough;
@@ -241,13 +261,23 @@ pub fn stage(ctx: &mut Ctx) {
         let mut job = 0usize;
         for &(chip, board) in VARIANTS.iter() {
             for level in [KIND, LORA, LORAWAN] {
-                for j in requests(level) {
+                let main = requests(level);
+                let n_main = main.len();
+                for (ji, j) in main.into_iter().chain(edge_requests(level)).enumerate() {
                     job += 1;
                     if job % n != ti {
                         continue;
                     }
                     let (m, _, _) = hist::context(&j);
-                    let depth = if full && level == LORA && m.freq == FREQS[0] { 3 } else { 2 };
+                    let depth = if ji >= n_main {
+                        1
+                    } else if full && level == LORA && m.freq == FREQS[0] {
+                        3
+                    } else {
+                        2
+                    };
+                    // rx_boost and TCXO vary with the request (the PA pin / DC-DC bit belongs to the PA path)
+                    let board = board | (ji as u8 & 1) | ((ji as u8 >> 1) & 1) << 2;
                     for pre in hist::prefixes(level, &j, depth) {
                         let mut ops = pre;
                         ops.push(j);
@@ -262,10 +292,11 @@ pub fn stage(ctx: &mut Ctx) {
     let cases: u32 = if full { 40_000 } else { 1_500 };
     let enumerated_depth = if full { 3 } else { 2 };
     ctx.parallel(|ti, _n, st| {
-        let reqs: Vec<Vec<Op>> = [KIND, LORA, LORAWAN].iter().map(|l| requests(*l)).collect();
-        let strat = (0usize..VARIANTS.len() * 3, hist::strategy(10_000, 8));
-        let f = run_proptest(strat, cases, seed ^ 0xC17_0000 ^ ((ti as u64) << 40), st, |(combo, (ri, aops)), st| {
+        let reqs: Vec<Vec<Op>> = [KIND, LORA, LORAWAN].iter().map(|l| requests(*l).into_iter().chain(edge_requests(*l)).collect()).collect();
+        let strat = (0usize..VARIANTS.len() * 3, 0u8..4, hist::strategy(10_000, 8));
+        let f = run_proptest(strat, cases, seed ^ 0xC17_0000 ^ ((ti as u64) << 40), st, |(combo, opt, (ri, aops)), st| {
             let (chip, board) = VARIANTS[combo % VARIANTS.len()];
+            let board = board | (opt & 1) | (opt & 2) << 1;
             let level = combo / VARIANTS.len();
             let j = reqs[level][ri % reqs[level].len()];
             let h = hist::build(level, chip, board, &j, aops);
